@@ -19,6 +19,11 @@ NOTE = (
 CLAIMS = {}
 
 
+TECH_SUFFIX = ('; cache analysis on the source as written (rule Cxx.M: lookup / miss test / store protocol, every leaf the kept value is computed from '
+               'against the key and tag material, escape of the kept object); verdict policy over statement fingerprints of the reference tree '
+               '(a mismatch with an expected form in a function rewritten since is reported as not decided, exit 2, never as a violation)')
+
+
 def claim(pid, technique, text, ref):
     CLAIMS[pid] = (technique, text, ref)
 
@@ -44,7 +49,7 @@ def main() -> int:
                     'engine': 'fsa',
                     'level_claimed': {'category': 'other', 'text': text, 'design_ref': ref},
                     'level_note': NOTE,
-                    'technique': tech,
+                    'technique': tech + TECH_SUFFIX.replace('Cxx', p),
                 }
             )
         else:
